@@ -500,4 +500,173 @@ theorem Inv.drain (hor : OrSpec) {depth : Nat} {flag : Bool} (hd : depth ≤ 29)
         · left; rfl
     · intro _; right; simp
 
+theorem le_last_of_pairwise {l : List Nat} {h : Nat} (hp : l.Pairwise (· < ·)) (hl : l.getLast? = some h) :
+    ∀ a ∈ l, a ≤ h := by
+  obtain ⟨ys, rfl⟩ := List.getLast?_eq_some_iff.1 hl
+  obtain ⟨_, _, hc⟩ := List.pairwise_append.1 hp
+  intro a ha
+  rcases List.mem_append.1 ha with h1 | h1
+  · exact Nat.le_of_lt (hc a h1 h (by simp))
+  · simp only [List.mem_singleton] at h1; omega
+
+theorem Inv.finish (hor : OrSpec) {depth : Nat} {flag : Bool} (hd : depth ≤ 29) {s : FixedBuilder} {S : List Nat}
+    (inv : Inv depth flag s S) (d : Bool) :
+    ∃ s', (if d = true then s.drain else some s) = some s' ∧ Inv depth flag s' S := by
+  cases d
+  · exact ⟨s, by simp, inv⟩
+  · obtain ⟨s', h1, h2, _, _⟩ := inv.drain hor hd
+    exact ⟨s', by simp [h1], h2⟩
+
+/-- `push` keeps the invariant (a hash equal to the last buffered one is dropped; `sorted` is cleared as soon as a
+    hash smaller than the last buffered one arrives, so a buffer with `sorted` set is strictly increasing) -/
+theorem Inv.push (hor : OrSpec) {depth : Nat} {flag : Bool} (hd : depth ≤ 29) {s : FixedBuilder} {S : List Nat}
+    (inv : Inv depth flag s S) (hash : Nat) (hh : hash < 12 * 4 ^ depth) (d : Bool) :
+    ∃ s', s.push hash d = some s' ∧ Inv depth flag s' (S ++ [hash]) := by
+  unfold FixedBuilder.push
+  cases hl : s.buffer.getLast? with
+  | some h =>
+    simp only
+    obtain ⟨ys, hys⟩ := List.getLast?_eq_some_iff.1 hl
+    by_cases he : h = hash
+    · have : (h == hash) = true := by simp [he]
+      rw [if_pos this]
+      refine ⟨s, rfl, ?_⟩
+      have hin : hash ∈ s.buffer := by rw [hys, ← he]; simp
+      refine ⟨inv.hdepth, inv.hfull, inv.hbuf, inv.hsorted, inv.hbmoc, ?_, inv.hflag, ?_⟩
+      · intro x
+        rw [List.mem_append, inv.hsem x, List.mem_singleton]
+        constructor
+        · rintro (h1 | rfl)
+          · exact h1
+          · exact Or.inl hin
+        · intro h1; exact Or.inl h1
+      · intro _; left; intro h0; rw [h0] at hin; simp at hin
+    · have : ¬ ((h == hash) = true) := by simp [he]
+      rw [if_neg this]
+      apply Inv.finish hor hd
+      refine ⟨inv.hdepth, inv.hfull, ?_, ?_, inv.hbmoc, ?_, inv.hflag, ?_⟩
+      · intro x hx
+        rcases List.mem_append.1 hx with h1 | h1
+        · exact inv.hbuf x h1
+        · simp only [List.mem_singleton] at h1; rw [h1]; exact hh
+      · intro hs
+        simp only [Bool.and_eq_true, Bool.not_eq_true', decide_eq_false_iff_not] at hs
+        have hp := inv.hsorted hs.1
+        refine List.pairwise_append.2 ⟨hp, by simp, ?_⟩
+        intro a ha b hb
+        simp only [List.mem_singleton] at hb
+        have := le_last_of_pairwise hp hl a ha
+        omega
+      · intro x
+        show _ ↔ (x ∈ s.buffer ++ [hash] ∨ stB depth s x ≠ .abs)
+        rw [List.mem_append, List.mem_append, inv.hsem x]
+        constructor
+        · rintro ((h1 | h1) | h1)
+          · exact Or.inl (Or.inl h1)
+          · exact Or.inr h1
+          · exact Or.inl (Or.inr h1)
+        · rintro ((h1 | h1) | h1)
+          · exact Or.inl (Or.inl h1)
+          · exact Or.inr h1
+          · exact Or.inl (Or.inr h1)
+      · intro _; left; simp
+  | none =>
+    simp only
+    have hnil : s.buffer = [] := List.getLast?_eq_none_iff.1 hl
+    apply Inv.finish hor hd
+    refine ⟨inv.hdepth, inv.hfull, ?_, ?_, inv.hbmoc, ?_, inv.hflag, ?_⟩
+    · intro x hx
+      rw [hnil] at hx
+      simp only [List.nil_append, List.mem_singleton] at hx; rw [hx]; exact hh
+    · intro _; show (s.buffer ++ [hash]).Pairwise (· < ·); rw [hnil]; simp
+    · intro x
+      show _ ↔ (x ∈ s.buffer ++ [hash] ∨ stB depth s x ≠ .abs)
+      rw [List.mem_append, List.mem_append, inv.hsem x]
+      constructor
+      · rintro ((h1 | h1) | h1)
+        · exact Or.inl (Or.inl h1)
+        · exact Or.inr h1
+        · exact Or.inl (Or.inr h1)
+      · rintro ((h1 | h1) | h1)
+        · exact Or.inl (Or.inl h1)
+        · exact Or.inr h1
+        · exact Or.inl (Or.inr h1)
+    · intro _; left; simp
+
+theorem Inv.run (hor : OrSpec) {depth : Nat} {flag : Bool} (hd : depth ≤ 29) : ∀ (ps : List (Nat × Bool)) (s : FixedBuilder)
+    (S : List Nat), Inv depth flag s S → (∀ p ∈ ps, p.1 < 12 * 4 ^ depth) →
+    ∃ s', runPushes s ps = some s' ∧ Inv depth flag s' (S ++ ps.map (·.1)) := by
+  intro ps
+  induction ps with
+  | nil => intro s S inv _; exact ⟨s, rfl, by simpa using inv⟩
+  | cons p ps ih =>
+    intro s S inv hlt
+    obtain ⟨h, d⟩ := p
+    obtain ⟨s1, e1, inv1⟩ := inv.push hor hd h (hlt (h, d) (by simp)) d
+    obtain ⟨s2, e2, inv2⟩ := ih s1 (S ++ [h]) inv1 (fun p hp => hlt p (by simp [hp]))
+    refine ⟨s2, by simp [runPushes, e1, e2], ?_⟩
+    simpa [List.append_assoc] using inv2
+
+/-- **`fixed_builder_sem`**: for every `depth ≤ 29`, flag, and sequence of pushes `(hash, drainNow)` with all hashes
+    `< 12·4^depth` (`drainNow` = "the buffer reached its capacity after this push", arbitrary), and provided `or`
+    satisfies `OrSpec`: the run `with_capacity; push*; to_bmoc` does not panic; it returns `None` iff nothing was pushed;
+    otherwise it returns a BMOC of depth `depth` with valid entries and a well-formed cell list in which every pushed
+    hash has the builder's flag and every other cell of depth `depth` is absent -/
+theorem fixed_builder_sem (hor : OrSpec) (depth : Nat) (flag : Bool) (hd : depth ≤ 29) (ps : List (Nat × Bool))
+    (hlt : ∀ p ∈ ps, p.1 < 12 * 4 ^ depth) :
+    ∃ r, runBuilder depth flag ps = some r ∧ (r = none ↔ ps = []) ∧
+      ∀ m, r = some m → m.dmax = depth ∧ (∀ e ∈ m.entries, ValidRaw depth e) ∧ WF depth m.cells ∧
+        ∀ x, stOf depth m.cells x = if x ∈ ps.map (·.1) then Tri.ofFlag flag else .abs := by
+  cases hps : ps with
+  | nil =>
+    refine ⟨none, by simp [runBuilder, runPushes, FixedBuilder.init, FixedBuilder.toBmoc], by simp, ?_⟩
+    intro m hm; cases hm
+  | cons p0 ps0 =>
+    rw [← hps]
+    have hne : ps.map (·.1) ≠ [] := by rw [hps]; simp
+    obtain ⟨s, e, inv⟩ := Inv.run hor hd ps _ [] (Inv.init depth flag) hlt
+    rw [List.nil_append] at inv
+    -- a state with an empty buffer
+    have final : ∀ s' : FixedBuilder, Inv depth flag s' (ps.map (·.1)) → s'.buffer = [] →
+        s'.bmoc ≠ none ∧
+        ∀ m, s'.bmoc = some m → m.dmax = depth ∧ (∀ e ∈ m.entries, ValidRaw depth e) ∧ WF depth m.cells ∧
+          ∀ x, stOf depth m.cells x = if x ∈ ps.map (·.1) then Tri.ofFlag flag else .abs := by
+      intro s' inv' hb
+      refine ⟨?_, ?_⟩
+      · intro hn
+        rcases inv'.hne hne with h | h
+        · exact h hb
+        · exact h hn
+      · intro m hm
+        obtain ⟨md, good⟩ := inv'.hbmoc m hm
+        refine ⟨md, good.1, good.2, ?_⟩
+        intro x
+        have h1 := inv'.hsem x
+        have h2 := inv'.hflag x
+        simp only [stB, hm, hb, List.not_mem_nil, false_or] at h1 h2
+        by_cases hx : x ∈ ps.map (·.1)
+        · rw [if_pos hx]
+          rcases h2 with h2 | h2
+          · exact absurd h2 (h1.1 hx)
+          · exact h2
+        · rw [if_neg hx]
+          by_contra hne'
+          exact hx (h1.2 hne')
+    have hpsne : ¬ (ps = []) := by rw [hps]; simp
+    unfold runBuilder
+    rw [e, Option.bind_some]
+    unfold FixedBuilder.toBmoc
+    by_cases hlen : s.buffer.length > 0
+    · rw [if_pos hlen]
+      obtain ⟨s', e', inv', hb', _⟩ := inv.drain hor hd
+      obtain ⟨f1, f2⟩ := final s' inv' hb'
+      rw [e', Option.map_some]
+      refine ⟨s'.bmoc, rfl, ?_, f2⟩
+      exact ⟨fun h => absurd h f1, fun h => absurd h hpsne⟩
+    · rw [if_neg hlen]
+      have hb : s.buffer = [] := List.eq_nil_of_length_eq_zero (by omega)
+      obtain ⟨f1, f2⟩ := final s inv hb
+      refine ⟨s.bmoc, rfl, ?_, f2⟩
+      exact ⟨fun h => absurd h f1, fun h => absurd h hpsne⟩
+
 end Hpx.Bmoc.Builder
